@@ -69,6 +69,25 @@ PROPS['C19'] = {
     'not_decided': [],
 }
 
+TIM = 'cloud::__verif_timing::'
+PROPS['C15'] = {
+    'level': 'proof',
+    'kani': {
+        'files': {'src/cloud.rs': ['kani/timing.rs.in']},
+        'harnesses': [
+            K(TIM, 'housekeep_interval_all_pairs', 'announcement interval block of GenericCloud::housekeep: no arithmetic fault; interval <= 1 or < smallest advertised timeout; <= own keep-alive; all 2^32 pairs', fns=['cloud::GenericCloud::housekeep (block: let interval = ...)']),
+            K(TIM, 'get_keepalive_all_inputs', 'Config::get_keepalive body: no fault; explicit keep-alive wins; default is 1 or < own peer timeout; all inputs', fns=['config::Config::get_keepalive (body as block)']),
+            K(TIM, 'backoff_invariant_step', 'back-off block of reconnect_to_peers: 1 <= timeout <= 3600 and tries <= 10 preserved, no overflow, next attempt at most 3600 s ahead', fns=['cloud::GenericCloud::reconnect_to_peers (block: back-off)']),
+            K(TIM, 'configured_peer_is_retained', 'retain predicate of reconnect_to_peers keeps every entry without final_timeout (configured peers are retried indefinitely)', fns=['cloud::GenericCloud::reconnect_to_peers (block: retain predicate)']),
+        ],
+    },
+    'trusted': ['block contracts: only the named statement ranges are under contract; the rest of housekeep / reconnect_to_peers is not'],
+    'not_decided': [
+        'that a silent peer is removed at the next tick and re-dialled (GenericCloud::housekeep as a whole: HashMap iteration, sockets)',
+        'mesh-level "no healthy peer is ever timed out" (needs delivery assumptions)',
+    ],
+}
+
 NOT_APPLICABLE = {
     'C01': 'needs Ed25519 unforgeability plus InitMsg::read_from / InitState::handle_init, which neither back end reaches (150-line TLV parser over Cursor/SmallVec; ring key objects); no contract within reach expresses it',
     'C02': 'pending',
